@@ -50,6 +50,11 @@ func related(t *rapid.T, a vgen.VSpec, depth int) vgen.VSpec {
 				k := rapid.SampledFrom([]string{"int", "float", "f64", "f32", "bigfloat", "i8", "i16", "i32", "i64", "u8", "u16", "u32", "u64", "uint"}).Draw(t, "rk")
 				switch k {
 				case "int":
+					// the same integer, possibly produced by the runtime through another route
+					// (negation, n-1+1, n+1-1, 2n/2): representation independence of == and hash
+					if r := rapid.IntRange(0, 4).Draw(t, "route"); r > 0 {
+						return vgen.VSpec{K: "int", S: n.String(), B: []byte{byte(r)}}
+					}
 					return vgen.VSpec{K: "int", S: n.String()}
 				case "float", "f64", "f32", "bigfloat":
 					f, _ := r.Float64()
